@@ -491,15 +491,23 @@ fn send(cmd: Cmd) -> u32 {
     s
 }
 
-/// true: H finished the command; false: watchdog expired
+/// true: H finished the command; false: watchdog expired.  The watchdog is progress based: it
+/// expires only when no event at all has been produced by any thread for `budget_ms` (a slow
+/// machine is not a hang).
 fn wait_done(s: u32, budget_ms: u64) -> bool {
-    let t0 = sys::now_us();
+    let mut last_seq = ev::SEQ.load(Ordering::SeqCst);
+    let mut last_change = sys::now_us();
     loop {
         let d = DONE_SEQ.load(Ordering::SeqCst);
         if d == s {
             return true;
         }
-        if sys::now_us() - t0 > budget_ms * 1000 {
+        let now = sys::now_us();
+        let cur = ev::SEQ.load(Ordering::SeqCst);
+        if cur != last_seq {
+            last_seq = cur;
+            last_change = now;
+        } else if now - last_change > budget_ms * 1000 {
             return false;
         }
         sys::futex_wait(DONE_SEQ.as_ptr() as usize, d, 20_000);
@@ -635,7 +643,8 @@ fn cmd_batch(line: &str) {
         drop_pct: num(line, "drop", 40) as u32,
         types: num(line, "types", 127) as u32,
     });
-    if !wait_done(s, WATCHDOG_MS.load(Ordering::SeqCst) + 20 * n as u64) {
+    let _ = n;
+    if !wait_done(s, WATCHDOG_MS.load(Ordering::SeqCst)) {
         timed_out("batch");
     }
 }
@@ -682,7 +691,7 @@ fn cmd_sched(line: &str) {
     expected[0] = true;
     let mut cur_op: isize = -1;
     let mut diverged = false;
-    let tmo = 2_000_000u64;
+    let tmo = 5_000_000u64;
     for (i, tok) in arg(line, "steps").unwrap_or("").split(',').enumerate() {
         if tok.is_empty() {
             continue;
